@@ -44,7 +44,7 @@ static std::string check_output_text(const std::string &bytes, int version) {
     int col = 0, line = 1;
     for (uint32_t c : cps) {
         if (version == 2 ? !cif2_char(c) : !cif11_char(c)) { char b[64]; snprintf(b, sizeof b, "output contains U+%04X (line %d), not a CIF %s character", c, line, version == 2 ? "2.0" : "1.1"); return b; }
-        if (c == 10) { col = 0; line++; } else if (++col > 2048) return "output line " + std::to_string(line) + " is longer than 2048 characters";
+        if (c == 10 || c == 13) { col = 0; line++; } else if (++col > 2048) return "output line " + std::to_string(line) + " is longer than 2048 characters";
     }
     return "";
 }
@@ -53,8 +53,8 @@ struct Scan { bool composite = false, nlsemi = false, non11 = false, nested = fa
 static void scan_str(const ustr &s, Scan &sc, bool is_value) {
     for (size_t i = 0; i < s.size(); i++) {
         char16_t c = s[i];
-        if (!(c == 9 || c == 10 || (c >= 0x20 && c <= 0x7E))) sc.non11 = true;
-        if (is_value && c == u'\n' && i + 1 < s.size() && s[i + 1] == u';') sc.nlsemi = true;
+        if (!(c == 9 || c == 10 || c == 13 || (c >= 0x20 && c <= 0x7E))) sc.non11 = true;
+        if (is_value && (c == u'\n' || c == u'\r') && i + 1 < s.size() && s[i + 1] == u';') sc.nlsemi = true;   // (CR is a line terminator in the written file just as LF is)
     }
 }
 static int cplen(const ustr &s) { int n = 0; for (char16_t c : s) if (!(c >= 0xDC00 && c <= 0xDFFF)) n++; return n; }
@@ -94,6 +94,10 @@ static std::string run_case(const CaseFile &c) {
     ph::ErrLog log;
     do {
         if ((rc = cm::dump(cif, orig)) != CIF_OK) { msg = std::string("dump of the original failed: ") + cm::code_name(rc); break; }
+        // a CIF file does not distinguish CR, CR LF and LF: whatever terminators a stored string holds, it reads back with LF
+        { std::function<void(Value &)> nv = [&](Value &v) { if (v.k == Value::CHAR) { ustr o; for (size_t i = 0; i < v.text.size(); i++) { if (v.text[i] == u'\r') { o += u'\n'; if (i + 1 < v.text.size() && v.text[i + 1] == u'\n') i++; } else o += v.text[i]; } v.text = o; } for (auto &e : v.elems) nv(e); for (auto &e : v.entries) nv(e.second); };
+          std::function<void(cm::Container &)> nc = [&](cm::Container &ct) { for (auto &l : ct.loops) for (auto &r : l.rows) for (auto &v : r) nv(v); for (auto &f : ct.frames) nc(f); };
+          for (auto &b : orig.blocks) nc(b); }
         if (cif_write_options_create(&wo) != CIF_OK) { msg = "cif_write_options_create failed"; break; }
         wo->cif_version = version == 2 ? (c.geti("explicit2") ? 2 : 0) : 1;
         FILE *f = open_memstream(&mem, &memlen);
@@ -156,7 +160,7 @@ int main(int argc, char **argv) {
         { cif_tp *w = nullptr; if (cif_create(&w) == CIF_OK) (void) cif_destroy(w); }
         return rc::check(WRITE_VERSION == 2 ? "C02 cif_write output re-parses to an equivalent CIF" : "C13 CIF 1.1 output is pure and round-trips, or is refused", []() {
             g::DocOpts o; o.dialect = cp::CIF2; o.frame_depth = 3; o.max_frames = 2; o.long_values = true;
-            o.vo.numb_kind = true; o.vo.maxdepth = 3; o.vo.maxlen = 120; o.hard_text = true; o.vo.long_keys = true;
+            o.vo.numb_kind = true; o.vo.maxdepth = 3; o.vo.maxlen = 120; o.hard_text = true; o.cr_values = true; o.vo.long_keys = true;
             if (WRITE_VERSION == 1) {
                 int flavour = *g::range(0, 9);
                 if (flavour < 7) { o.dialect = cp::CIF11; o.vo.prof = g::P_CIF11; o.vo.composites = false; }     // expressible (unless "\n;")
